@@ -14,12 +14,12 @@ pub static DEF: CheckDef = CheckDef {
     id: "C18",
     run,
     replay,
-    rule: "the worker's real standard output (fd 1) is redirected to an in-memory file and read back after every case. (a) hand-assembled snippets that write arbitrary values to 0xFF01/0xFF02 through every store form (LDH (n),A; LD (C),A; LD (HL),r; LD (HL),n; LD (HL+),A; LD (nn),A; LD (nn),SP with nn = 0xFF01; PUSH with SP = 0xFF03) with all four combinations of bit 7 in two consecutive SC values and 64 data values each; (b) proptest programs from the C04 generator with extra serial fragments (interrupt handlers that transmit included), (c) the cache-pressure program of C04, which transmits while the translation area fills up, (d) proptest histories of direct writes to 0xFF01/0xFF02 through the bus. Each is run in three modes: interpreter build instruction-stepped, interpreter build block-stepped, jit build block-stepped. Oracle: the captured bytes must equal, exactly and in order, the value last written to 0xFF01 at the time of each write to 0xFF02 with bit 7 set, computed from the ordered bus-write trace; in the instruction-stepped mode it must also equal the stream the reference CPU (models::sm83 + models::irq on a twin) produces for the same program, which fixes the order of the two bytes of 16-bit stores; nothing else may appear on the stream; all three modes must produce the same stream. Non-trivial = case with at least two transmitting writes and at least one non-transmitting write to 0xFF02 or a write to 0xFF01 that is overwritten before being sent; distinct by hash of (case, mode).",
+    rule: "the worker's real standard output (fd 1) is redirected to an in-memory file and read back after every case. (a) hand-assembled snippets that write arbitrary values to 0xFF01/0xFF02 through every store form (LDH (n),A; LD (C),A; LD (HL),r; LD (HL),n; LD (HL+),A; LD (nn),A; LD (nn),SP with nn = 0xFF01; PUSH with SP = 0xFF03) with all four combinations of bit 7 in two consecutive SC values and 64 data values each; (b) proptest programs from the C04 generator with extra serial fragments (interrupt handlers that transmit included), (c) the cache-pressure program of C04, which transmits while the translation area fills up, (d) proptest histories of direct writes to 0xFF01/0xFF02 through the bus, also with writes to the neighbouring registers 0xFF00/0xFF03/0xFF04 mixed in (they must not reach the data register). Each is run in three modes: interpreter build instruction-stepped, interpreter build block-stepped, jit build block-stepped. Oracle: the captured bytes must equal, exactly and in order, the value last written to 0xFF01 at the time of each write to 0xFF02 with bit 7 set, computed from the ordered bus-write trace; in the instruction-stepped mode it must also equal the stream the reference CPU (models::sm83 + models::irq on a twin) produces for the same program, which fixes the order of the two bytes of 16-bit stores; nothing else may appear on the stream; all three modes must produce the same stream. Non-trivial = case with at least two transmitting writes and at least one non-transmitting write to 0xFF02 or a write to 0xFF01 that is overwritten before being sent; distinct by hash of (case, mode).",
     assumptions: &[
         "the expected stream is a function of the machine's own ordered bus writes (hook); that those writes are the program's is C01/C04/C05's subject",
         "the loader's messages (printed before a ROM runs) are not part of the stream: machines are built with Core::from_rom_file",
     ],
-    required_classes: &["cache-pressure", "snippet", "program", "direct-history", "mode-instruction", "mode-block-interpreter", "mode-block-jit", "two-sends-and-a-non-send", "push-onto-ff03", "isr-transmits"],
+    required_classes: &["cache-pressure", "snippet", "program", "direct-history", "direct-history-with-neighbours", "mode-instruction", "mode-block-interpreter", "mode-block-jit", "two-sends-and-a-non-send", "push-onto-ff03", "isr-transmits"],
     exhaustive: false,
 };
 
@@ -71,8 +71,10 @@ enum Case {
     /// raw code placed at 0x0150 (ends in a self-loop), steps
     Snippet(String, u32),
     Program(ProgSpec, u32),
-    /// direct bus writes: (is_control, value)
+    /// direct bus writes: (is_control, value); with the third field set the write goes to a
+    /// neighbouring register instead (0xFF00 / 0xFF03 / 0xFF04), which must not matter
     Direct(Vec<(bool, u8)>),
+    DirectN(Vec<(u8, u8)>),
     /// the cache-pressure program of C04 (transmits one byte per iteration): opcode, steps
     Pressure(u8, u32),
 }
@@ -118,7 +120,7 @@ fn run_one(c: &Case, mode: u8, cap: &mut Capture) -> Result<(Vec<u8>, Vec<u8>, (
             rom
         }
         Case::Program(p, _) => assemble(p).0,
-        Case::Direct(_) => std_rom(),
+        Case::Direct(_) | Case::DirectN(_) => std_rom(),
         Case::Pressure(op, _) => {
             if *op == 0xff {
                 crate::checks::c04::pressure_rom2()
@@ -131,7 +133,7 @@ fn run_one(c: &Case, mode: u8, cap: &mut Capture) -> Result<(Vec<u8>, Vec<u8>, (
     let m: &mut dyn Emu = &mut *boxed;
     let steps = match c {
         Case::Snippet(_, s) | Case::Program(_, s) | Case::Pressure(_, s) => *s,
-        Case::Direct(_) => 0,
+        Case::Direct(_) | Case::DirectN(_) => 0,
     };
     // Independent expectation for the instruction-stepped mode: the reference CPU
     // (models::sm83 + models::irq on a twin) says which bytes the program stores to
@@ -164,6 +166,12 @@ fn run_one(c: &Case, mode: u8, cap: &mut Capture) -> Result<(Vec<u8>, Vec<u8>, (
         if let Case::Direct(ws) = c {
             for (ctl, v) in ws {
                 m.write(if *ctl { 0xff02 } else { 0xff01 }, *v);
+                m.run_clocks(4);
+            }
+        }
+        if let Case::DirectN(ws) = c {
+            for (which, v) in ws {
+                m.write([0xff01u16, 0xff02, 0xff03, 0xff00, 0xff04, 0xff01, 0xff02, 0xff03][(*which & 7) as usize], *v);
                 m.run_clocks(4);
             }
         }
@@ -211,7 +219,7 @@ fn describe(bytes: &[u8]) -> String {
 fn exec(c: &Case, rec: &mut Rec, counting: bool, cap: &mut Capture) -> CaseResult {
     let mut streams: Vec<Vec<u8>> = Vec::new();
     for mode in 0..3u8 {
-        if let Case::Direct(_) = c {
+        if matches!(c, Case::Direct(_) | Case::DirectN(_)) {
             if mode == 1 {
                 continue;
             }
@@ -246,7 +254,7 @@ fn exec(c: &Case, rec: &mut Rec, counting: bool, cap: &mut Capture) -> CaseResul
         }
         streams.push(got);
     }
-    if let Case::Direct(_) = c {
+    if matches!(c, Case::Direct(_) | Case::DirectN(_)) {
     } else if streams.len() == 3 && (streams[1] != streams[2]) {
         return Err(Fail::new("modes-differ", format!("block-stepped interpreter transmits {}, block-stepped jit {}", describe(&streams[1]), describe(&streams[2]))));
     }
@@ -270,6 +278,10 @@ fn snippets() -> Vec<(String, &'static str)> {
         v.push((hex(&[0x3e, d1, 0xea, 0x01, 0xff, 0x3e, c1, 0xea, 0x02, 0xff, 0x3e, d2, 0xea, 0x01, 0xff, 0x3e, c2, 0xea, 0x02, 0xff]), "ld-nn"));
         // LD (nn),SP: low byte -> SB, high byte -> SC
         v.push((hex(&[0x31, d1, c1, 0x08, 0x01, 0xff, 0x31, d2, c2, 0x08, 0x01, 0xff, 0x31, 0xf0, 0xdf]), "ld-nn-sp"));
+        // LD (0xFF02),SP: low byte -> SC, high byte -> the unconnected 0xFF03 (must not reach SB)
+        v.push((hex(&[0x3e, d1, 0xe0, 0x01, 0x31, c1, d2, 0x08, 0x02, 0xff, 0x3e, c2 | 0x80, 0xe0, 0x02, 0x31, 0xf0, 0xdf]), "ld-ff02-sp"));
+        // PUSH BC with SP = 0xFF04: B -> 0xFF03, C -> 0xFF02
+        v.push((hex(&[0x3e, d1, 0xe0, 0x01, 0x31, 0x04, 0xff, 0x06, d2, 0x0e, c1 | 0x80, 0xc5, 0x3e, d2, 0xe0, 0x03, 0x3e, 0x81, 0xe0, 0x02, 0x31, 0xf0, 0xdf]), "push-ff04"));
         // PUSH BC with SP = 0xFF03: B -> 0xFF02 first, then C -> 0xFF01
         v.push((hex(&[0x3e, d1, 0xe0, 0x01, 0x31, 0x03, 0xff, 0x06, c1, 0x0e, d2, 0xc5, 0x31, 0x03, 0xff, 0x06, c2, 0x0e, d1, 0xc5, 0x31, 0xf0, 0xdf]), "push"));
     }
@@ -359,6 +371,18 @@ fn run(rec: &mut Rec) {
         let c = Case::Direct(w.clone());
         if counting {
             rec.class("direct-history", 1);
+        }
+        exec(&c, rec, counting, &mut capcell.borrow_mut())
+    });
+    // the same with writes to the neighbouring registers mixed in
+    let strat = prop::collection::vec((0u8..8, prop_oneof![Just(0x81u8), Just(0x80), Just(0x01), Just(0x00), Just(0xff), any::<u8>()]), 1..40);
+    fn dnjson(w: &Vec<(u8, u8)>) -> Value {
+        json!({"kind": "serial", "mode": 0, "case": {"DirectN": w}})
+    }
+    run_generated(rec, "directn", cases, strat, dnjson, |w, rec, counting| {
+        let c = Case::DirectN(w.clone());
+        if counting {
+            rec.class("direct-history-with-neighbours", 1);
         }
         exec(&c, rec, counting, &mut capcell.borrow_mut())
     });
